@@ -27,6 +27,8 @@ def configs(tier, seed=0):
         for nt in [3, 4]:
             for solver in (['default'] if method == 'forward_euler' else ['default', 'user-tuple']):
                 out.append({'key': 'time/%s/nt%d/%s/recurrence' % (method, nt, solver), 'kind': 'time', 'method': method, 'nt': nt, 'solver': solver})
+        # constant-coefficient form: the SAME operator object is returned at every step (as Heat1D does), non-uniform steps
+        out.append({'key': 'time/%s/nt4/default/constant-operator' % method, 'kind': 'time', 'method': method, 'nt': 4, 'solver': 'default', 'constop': True})
         for tobs in ['final', 'all', 'explicit-on', 'explicit-off']:
             for gobs in ['equal', 'subset']:
                 out.append({'key': 'time/%s/observe/%s/%s' % (method, tobs, gobs), 'kind': 'time-obs', 'method': method, 'tobs': tobs, 'gobs': gobs})
@@ -140,22 +142,30 @@ def run(cfg, c):
             kw = {}
             if solver[cfg['solver']] is not None:
                 kw = {'linalg_solve': solver[cfg['solver']]}
-            pde = P.TimeDependentLinearPDE(time_form, ts, method=cfg['method'], grid_sol=grid, **kw)
+            if cfg.get('constop'):
+                A_const = np.array([[-2.0, 1.0, 0.0, 0.0], [1.0, -2.0, 1.0, 0.0], [0.0, 1.0, -2.0, 1.0], [0.0, 0.0, 1.0, -2.0]])
+
+                def tform(p_, t_):
+                    _, f_, ic_ = time_form(p_, t_)
+                    return A_const, f_, ic_
+            else:
+                tform = time_form
+            pde = P.TimeDependentLinearPDE(tform, ts, method=cfg['method'], grid_sol=grid, **kw)
             pde.assemble(p)
             u, info = pde.solve()
             u = np.asarray(u, dtype=dt)
             c.prove('one column per time level', u.shape == (4, len(ts)), info=fk(cfg, 'shape'))
-            _, _, ic = time_form(p, ts[0])
+            _, _, ic = tform(p, ts[0])
             c.prove_close('first level is the initial condition', u[:, 0], ic, info=fk(cfg, 'ic'))
             I = np.eye(4)
             for k in range(len(ts) - 1):
                 dtk = ts[k + 1] - ts[k]
                 if cfg['method'] == 'forward_euler':
-                    A, f, _ = time_form(p, ts[k])
+                    A, f, _ = tform(p, ts[k])
                     c.prove_close('forward Euler level %d: u_{k+1} = (I + dt A(t_k)) u_k + dt f(t_k)' % (k + 1), u[:, k + 1], u[:, k] + dtk * mv(A, u[:, k]) + dtk * f, tol=1e-8,
                                   info=fk(cfg, 'recurrence'))
                 else:
-                    A, f, _ = time_form(p, ts[k + 1])
+                    A, f, _ = tform(p, ts[k + 1])
                     if cfg['solver'] == 'default':
                         c.prove_close('backward Euler level %d: (I - dt A(t_{k+1})) u_{k+1} = u_k + dt f(t_{k+1})' % (k + 1), u[:, k + 1] - dtk * mv(A, u[:, k + 1]), u[:, k] + dtk * f,
                                       tol=1e-8, info=fk(cfg, 'recurrence'))
